@@ -293,7 +293,13 @@ fn under_schedules(run: &Run, mode: &str) -> (u64, u64) {
         let script = f.get("script_text").and_then(|x| x.as_str()).unwrap_or("").to_string();
         let msg = f.get("message").and_then(|x| x.as_str()).unwrap_or("").to_string();
         if !matches!(f.get("replays_deterministically"), Some(J::Bool(true))) {
-            run.machinery_error(format!("schedule for [{script}] does not replay deterministically"));
+            if mode == "determinism" {
+                // same script, same schedule, different lines: what the searches print depends on something that is
+                // neither the commands nor the interleaving (the wall clock, for instance)
+                run.violation("search-not-deterministic", format!("search-not-deterministic-under-one-schedule|{}", f.get("script").and_then(|x| x.as_str()).unwrap_or("")), f.clone(), format!("[{script}]: one and the same schedule printed different search lines when it was run again: {msg}"));
+            } else {
+                run.machinery_error(format!("schedule for [{script}] does not replay deterministically"));
+            }
             continue;
         }
         let kind = match mode {
@@ -742,6 +748,11 @@ pub fn c13(run: &'static Run) -> (u64, u64) {
             }
         }
     }
+    // the same under `debug on` (the engine may print more; nothing else may change): shrinking, growing and repeated sizes
+    if let Some(h) = opts.iter().find(|o| o.name == "Hash") {
+        scenarios.push(vec!["debug on".into(), set("Hash", 300.min(h.max)), "go".into(), set("Hash", h.min.max(1)), "go".into(), set("Hash", 8.min(h.max)), set("Hash", 8.min(h.max)), "go".into(), "debug off".into(), set("Hash", h.min), "go".into()]);
+        scenarios.push(vec!["debug on".into(), set("Move Overhead", 100), set("Move Overhead", 0), set("Threads", 1), "go".into()]);
+    }
     // options combined
     if let (Some(h), Some(m)) = (opts.iter().find(|o| o.name == "Hash"), opts.iter().find(|o| o.name == "Move Overhead")) {
         scenarios.push(vec![set("Hash", h.min), set("Move Overhead", m.max), set("Threads", 1), "go".into(), set("Hash", 2), set("Move Overhead", m.min)]);
@@ -882,6 +893,10 @@ pub fn c17(run: &Run) -> (u64, u64) {
         ("fen rnb1qbnr/pppkpppp/8/3P4/8/P4N2/1PPP1PPP/RNBQKB1R b KQ - 0 4", 2),
         ("fen 1b5k/3p4/8/4P3/8/6K1/8/8 b - - 0 1", 2 + e),
         ("fen 8/8/6k1/8/4p3/8/3P4/1B5K w - - 0 1", 2 + e),
+        // the position with the most legal moves known (nine queens of one colour), a root beyond the fifty-move mark
+        ("fen R6R/3Q4/1Q4Q1/4Q3/2Q4Q/Q4Q2/pp1Q4/kBNN1KB1 w - - 0 1", 1),
+        ("fen 8/5k2/8/8/8/8/4R3/4K3 w - - 99 50", 3),
+        ("fen 8/5k2/8/8/8/8/4R3/4K3 b - - 120 90", 2),
         // optional fields omitted, Black to move
         ("fen rnbqkbnr/pppppppp/8/8/4P3/8/PPPP1PPP/RNBQKBNR b KQkq -", 3),
         ("fen rnbqkbnr/pppppppp/8/8/4P3/8/PPPP1PPP/RNBQKBNR b KQkq - 7", 2),
